@@ -140,6 +140,13 @@ func (in *Interp) toNative(fr *frame, v Value) (interface{}, bool) {
 		if x.T == nil {
 			return nil, true
 		}
+		if rv, isRV := x.V.(RV); isRV {
+			// fmt prints the value a reflect.Value holds
+			if rv.T == nil {
+				return rawString("<invalid reflect.Value>"), true
+			}
+			return in.toNative(fr, Iface{T: rv.T, V: rv.get()})
+		}
 		if types.Implements(x.T, errorIface) {
 			s, ok := in.errorText(fr, x).Concrete()
 			if !ok {
@@ -339,6 +346,8 @@ func (in *Interp) sprintf(fr *frame, format Str, args []Value) Str {
 
 func (in *Interp) symToStr(fr *frame, a Value) Str {
 	switch x := a.(type) {
+	case RV:
+		return in.symToStr(fr, x.get())
 	case Iface:
 		if x.T != nil && types.Implements(x.T, errorIface) {
 			return in.errorText(fr, x)
